@@ -233,9 +233,9 @@ func installSeccompRecvmmsgENOSYS() error {
 		arch = 0xc00000b7
 	}
 	filter := []unix.SockFilter{
-		{Code: 0x20, K: 4},                       // ld  arch
-		{Code: 0x15, Jt: 0, Jf: 3, K: arch},      // jne arch → allow
-		{Code: 0x20, K: 0},                       // ld  nr
+		{Code: 0x20, K: 4},                  // ld  arch
+		{Code: 0x15, Jt: 0, Jf: 3, K: arch}, // jne arch → allow
+		{Code: 0x20, K: 0},                  // ld  nr
 		{Code: 0x15, Jt: 0, Jf: 1, K: uint32(unix.SYS_RECVMMSG)},
 		{Code: 0x06, K: retErrno | uint32(unix.ENOSYS)},
 		{Code: 0x06, K: retAllow},
